@@ -1,6 +1,6 @@
 """C50 — ordering lists and association proxies behave as their collection types: OrderingList position bookkeeping and the
 list proxy _AssociationList (append, extend, pop, int-index get/set/del, clear, len) and the dict proxy _AssociationDict
-(__getitem__, __setitem__, __delitem__, __contains__, get, setdefault, clear, popitem) and the set proxy _AssociationSet (__contains__, add, discard,
+(__getitem__, __setitem__, __delitem__, __contains__, get, setdefault, clear, popitem) and the set proxy _AssociationSet (__contains__, add, discard, clear,
 remove, pop, -=, __bool__, __len__), all against the view of proxied values, under proof; operation sequences (bound / un-instrumented OrderingList, association proxies) as the bounded complement."""
 import importlib
 import contracts.orderinglist  # noqa: F401
